@@ -388,7 +388,7 @@ def _extract_patches():
     )
 
 
-def body_extract(ctx, nreq, policy, conv):
+def body_extract(ctx, nreq, policy, conv, blank=False):
     """emsarray extract-points == extract_dataframe for every vector of per-row outcomes (hit cell n / miss); under
     'error' any miss ends with a non-zero status, a message naming exactly the missing rows, and no output."""
     import contextlib
@@ -408,7 +408,8 @@ def body_extract(ctx, nreq, policy, conv):
         ds = builders.ugrid('tqp', fill='nan', data_vars={'temp': (('t', 'nface'), numpy.arange(6.0).reshape(2, 3) + 0.5)}).assign_coords(time=t)
     polygons = ds.ems.polygons
     N = len(polygons)
-    outcomes = [int(ctx.int(f'o{k}', -1, N - 1)) for k in range(nreq)]       # forks: (N+1)^nreq outcome vectors
+    # forks: (N+1)^nreq outcome vectors; with `blank`, row 1 of the table is completely empty (",,"): a point that is nowhere
+    outcomes = [(-1 if (blank and k == 1) else int(ctx.int(f'o{k}', -1, N - 1))) for k in range(nreq)]
     misses = [k for k, o in enumerate(outcomes) if o < 0]
     hits = [k for k, o in enumerate(outcomes) if o >= 0]
     ctx.note('rows', dict(outcomes=outcomes, policy=policy))
@@ -428,6 +429,15 @@ def body_extract(ctx, nreq, policy, conv):
     if ctx.symbolic:
         coords = [(float(k), 0.0) for k in range(nreq)]
         df = pandas.DataFrame({'lon': [c[0] for c in coords], 'lat': [c[1] for c in coords], 'name': [f'row{k}' for k in range(nreq)]})
+        if blank:
+            df.loc[1, ['lon', 'lat', 'name']] = [numpy.nan, numpy.nan, numpy.nan]
+
+        class _Tree(OutcomeTree):
+            def query(self, geometry, predicate=None, distance=None):
+                if numpy.isnan(geometry.x):
+                    return numpy.array([], dtype=numpy.intp)
+                return super().query(geometry, predicate=predicate, distance=distance)
+        OutcomeTree = _Tree
         ds.ems.__dict__['strtree'] = OutcomeTree(polygons, outcomes)
         HOLD.clear()
         HOLD.update(ds=ds, df=df, written=[])
@@ -448,6 +458,8 @@ def body_extract(ctx, nreq, policy, conv):
                 pt = polygons[o].representative_point()
                 coords.append((pt.x, pt.y))
         df = pandas.DataFrame({'lon': [c[0] for c in coords], 'lat': [c[1] for c in coords], 'name': [f'row{k}' for k in range(nreq)]})
+        if blank:
+            df.loc[1, ['lon', 'lat', 'name']] = [numpy.nan, numpy.nan, numpy.nan]
         src, csv, dst = (os.path.join(work, n) for n in ('in.nc', 'points.csv', 'out.nc'))
         ds.to_netcdf(src)
         df.to_csv(csv, index=False)
@@ -459,7 +471,7 @@ def body_extract(ctx, nreq, policy, conv):
         if eff == 'error' and misses:
             ctx.check(status not in (0, None), 'points outside the model end with a non-zero exit status')
             ctx.check(out is None, 'points outside the model: no output file (never a partial success)')
-            ctx.check(f'total rows: {len(misses)}' in message and all(f'row{k}' in message for k in misses[:5])
+            ctx.check(f'total rows: {len(misses)}' in message and all(f'row{k}' in message for k in misses[:5] if not (blank and k == 1))
                       and not any(f'row{k}' in message for k in hits), 'the message names exactly the rows that miss')
             return
         if not hits:
@@ -483,6 +495,11 @@ def body_extract(ctx, nreq, policy, conv):
             a, b = numpy.asarray(out[v].values), numpy.asarray(ref[v].values)
             if a.dtype.kind in 'fc' or b.dtype.kind in 'fc':
                 ok = ok and a.shape == b.shape and bool(numpy.allclose(a.astype(float), b.astype(float), equal_nan=True, rtol=0, atol=0))
+            elif a.dtype.kind in 'USO' or b.dtype.kind in 'USO':
+                # text columns: a missing text (NaN in the table) is the empty string in a netCDF file
+                def norm(x):
+                    return ['' if (isinstance(v, float) and v != v) else str(v) for v in numpy.asarray(x, dtype=object).ravel()]
+                ok = ok and a.shape == b.shape and norm(a) == norm(b)
             else:
                 ok = ok and a.shape == b.shape and bool((a == b).all())
         ctx.check(ok, 'file content equals what extract_dataframe returns')
@@ -566,6 +583,18 @@ def cli_equivalence(tier):
                         V(f'cli:export:{name}:{fmt}', 'export-geometry succeeds on valid input', f'exit status {status}', dict(argv=argv))
                     elif open(out_cli, 'rb').read() != open(out_lib, 'rb').read():
                         V(f'cli:export:{name}:{fmt}', 'exported file equals the library writer output', 'file contents differ', dict(argv=argv))
+            # an explicit --format wins over what the extension suggests
+            for fmt, ext, writer in (('wkt', '.json', geom_ops.write_wkt), ('geojson', '.wkt', geom_ops.write_geojson), ('wkb', '.geojson', geom_ops.write_wkb)):
+                out_cli = os.path.join(work, f'{name}-geom-cli-forced-{fmt}{ext}')
+                argv = ['export-geometry', src, out_cli, '--format', fmt]
+                status = run_main(argv)
+                out_lib = os.path.join(work, f'{name}-geom-lib-forced-{fmt}')
+                writer(emsarray.open_dataset(src), out_lib)
+                if status != 0 or not os.path.exists(out_cli):
+                    V(f'cli:export:{name}:{fmt}:forced', 'export-geometry succeeds on valid input', f'exit status {status}', dict(argv=argv))
+                elif open(out_cli, 'rb').read() != open(out_lib, 'rb').read():
+                    V(f'cli:export:{name}:{fmt}:forced', 'the requested --format is written whatever the extension of the output file',
+                      f'{out_cli} is not what write_{fmt} produces', dict(argv=argv))
             status = run_main(['export-geometry', src, os.path.join(work, 'geom.xyz')])
             if status in (0, None):
                 V(f'cli:export:{name}', 'unknown output format ends with a non-zero exit status', f'exit status {status}')
@@ -639,6 +668,10 @@ def cli_equivalence(tier):
             'MultiLineString': shapely.MultiLineString([[(b[0] + 0.01, cy), (cx, cy)], [(cx, b[1] + 0.01), (cx, b[3] - 0.01)]]),
             'Polygon+hole': shapely.box(*b).difference(shapely.Point(cx, cy).buffer(0.05, quad_segs=2)),
             'MultiPolygon': shapely.MultiPolygon([shapely.box(b[0], b[1], cx - 0.1, cy), shapely.box(cx + 0.1, cy, b[2], b[3])]),
+            # a ring that crosses itself: not a valid polygon, and still exactly what the user wrote
+            # (spanning three cells, so that its two lobes select different cells)
+            'bow-tie': (lambda q: shapely.Polygon([(q[0] + 0.01, q[1] + 0.01), (q[2] - 0.01, q[3] - 0.01), (q[2] - 0.01, q[1] + 0.01), (q[0] + 0.01, q[3] - 0.01)]))(
+                shapely.unary_union(polys[:3]).bounds),
         }
         for kind, geom in kinds.items():
             text = json.dumps(shapely.geometry.mapping(geom))
@@ -649,7 +682,7 @@ def cli_equivalence(tier):
                 if got.geom_type != geom.geom_type or got.is_empty != geom.is_empty or not got.equals(geom):
                     V(f'cli:geojson:{kind}:{form}', 'a GeoJSON argument denotes exactly that geometry',
                       f'{geom.wkt[:200]} parsed as {got.wkt[:200]}', dict(kind=kind, form=form))
-            if kind in ('LineString', 'Point'):
+            if kind in ('LineString', 'Point', 'bow-tie'):
                 out_cli = os.path.join(work, f'geojson-clip-{kind}.nc')
                 status = run_main(['clip', src, text, out_cli])
                 wd = tempfile.mkdtemp(dir=work)
@@ -709,6 +742,9 @@ def cases(tier):
             nreq = 2 if (q or policy in ('default',)) else 3
             yield Case(f'extract:{conv}:{policy}:{nreq}', body_extract, dict(nreq=nreq, policy=policy, conv=conv),
                        patches=_extract_patches, max_paths=2000, split=8)
+            if conv == 'cf1d' and policy != 'default':
+                yield Case(f'extract:{conv}:{policy}:3:blank-row', body_extract, dict(nreq=3, policy=policy, conv=conv, blank=True),
+                           patches=_extract_patches, max_paths=2000, split=8)
 
 
 def functions():
